@@ -13,7 +13,9 @@ Two case families, chosen per case index:
 * R (reconfigure): a location in one of the six layouts {standalone tree, tree-less branch, heavyweight checkout,
   lightweight checkout, branch in shared repository with / without tree} with pending changes is driven through
   1-3 steps drawn from {to_tree, to_branch, to_checkout, to_lightweight_checkout, to_use_shared, to_standalone},
-  each with force on or off.
+  each with force on or off.  Locations with their own repository often hold revisions outside the tip's ancestry (commit +
+  tag + uncommit, a reverted merge, a fetched and tagged foreign head); the step is drawn with a bias towards transitions
+  that change the layout, and towards those that must carry such revisions / pending-merge revisions into another repository.
 
 Oracle (each step): a snapshot of the location read with fresh objects before and after must agree on branch tip +
 revno, tags, the testament of every revision of the location's history (Testament v1 when the root model
@@ -38,11 +40,12 @@ LEVEL_TEXT = ("held on the sampled (history, source format, layout, pending chan
               "(layout, pending changes, reconfigure step, force) transitions listed in the histogram")
 RULE = ("case = family U: history (3-8 revisions, 2-3 branches, merges, tags, ghosts) x source format x layout x pending "
         "changes x pending merge x target format x clean_up, optionally followed by a second upgrade; family R: history x "
-        "format x start layout x pending changes x 1-3 reconfigure steps x force x bind/reference location; an evaluation "
+        "format x start layout x ahead/tag-conflict x dead heads in the own repository (uncommit / reverted merge / fetch, tagged "
+        "or not) x pending changes x 1-3 reconfigure steps x force x bind/reference location; an evaluation "
         "= one upgrade() or one to_*+apply() judged; non-trivial = the location had history (>= 2 revisions) and the step "
         "either converted something or was refused; distinct = (family, source format/layout, target format/step, outcome, "
         "pending-state class)")
-CASES = {"quick": 96, "thorough": 1400}
+CASES = {"quick": 120, "thorough": 1400}
 BUDGET_S = {"quick": 35, "thorough": 800}
 MIN_EVALS = {"quick": 100, "thorough": 1200}
 FLOORS = {
@@ -58,13 +61,18 @@ FLOORS = {
     "oracle_backup_removed": 5,
     "upgrade_runs": 30,
     "reconfigure_steps": 50,
+    "oracle_own_repository_revisions": 30,
+    "own_repository_dead_heads_judged": 10,
+    "dead_heads_carried_to_other_repository": 4,
 }
 EXHAUSTIVE = {"quick": False, "thorough": False}
 RUST = []
 ASSUMPTIONS = [
     "testaments are computed by the real Testament / StrictTestament3 classes on both sides of the step (C41 judges them)",
     "'every revision' = for upgrades all revisions of the repository; for reconfigurations the ancestry of the branch tip and "
-    "of the tree's pending merges (revisions of unrelated branches in a shared repository need not follow a branch out of it)",
+    "of the tree's pending merges and, when the location has a repository of its own (not shared), every revision in that "
+    "repository (dead heads left by uncommit / reverted merges / fetches, revisions only named by tags); revisions of unrelated "
+    "branches in a shared repository need not follow a branch out of it",
     "a step applied with force=True that destroys a tree with uncommitted changes is only judged on history, tags and check",
     "when a reconfiguration merges tags into another branch (to_lightweight_checkout) the location's tags must survive with "
     "their values; extra tags of the reference branch are allowed",
@@ -159,8 +167,11 @@ def layout_of(path):
     return "repo-tree" if has_tree else "repo-branch"
 
 
-def snap_location(path, all_revs=False):
-    """Everything the statement wants preserved, read through fresh objects."""
+def snap_location(path, all_revs=False, want=()):
+    """Everything the statement wants preserved, read through fresh objects.
+
+    `want`: revision ids (of an earlier snapshot) whose testaments are wanted too when the location's repository has them.
+    """
     from breezy import errors
     from breezy.bzr.testament import StrictTestament3, Testament
     from breezy.controldir import ControlDir
@@ -193,9 +204,21 @@ def snap_location(path, all_revs=False):
                 present.add(rev)
         d["tip_ancestry"] = {rev for rev, parents in g.iter_ancestry([h for h in heads[:1] if h != b"null:"])
                              if parents is not None and rev != b"null:"}
+        d["heads_ancestry"] = set(present)
+        # a repository of its own (not shared with other branches): every revision in it belongs to this location
+        try:
+            d["own_repo"] = not cd.open_repository().is_shared()
+        except errors.NoRepositoryPresent:
+            d["own_repo"] = False
         if all_revs:
             d["all_revs"] = set(repo.all_revision_ids())
             present |= d["all_revs"]
+        if d["own_repo"]:
+            d["own_revs"] = set(repo.all_revision_ids())
+            present |= d["own_revs"]
+        extra = [r for r in want if r not in present]
+        if extra:
+            present |= set(repo.has_revisions(extra))
         t = {}
         for r in sorted(present):
             rev = repo.get_revision(r)
@@ -254,6 +277,20 @@ def judge_preserved(ctx, pre, post, what, label, tree_expected=True, tags_supers
     if all_revs:
         lost = sorted(pre["all_revs"] - post["all_revs"])
         ctx.check(not lost, "%s:repository-revisions-lost" % what, "%s: %r" % (label, lost[:5]), det)
+    elif pre.get("own_repo"):
+        # The location had a repository of its own: all its revisions are the location's (dead heads left by uncommit or
+        # a reverted merge, revisions only named by tags ...), wherever the step moves them.  (post was read with want=)
+        ctx.count("oracle_own_repository_revisions")
+        lost = sorted(pre["own_revs"] - set(post["testaments"]))
+        dead = pre["own_revs"] - pre["heads_ancestry"]
+        if dead:
+            ctx.count("own_repository_dead_heads_judged")
+            if not post.get("own_repo"):
+                ctx.count("own_repository_with_dead_heads_destroyed")
+        tagged = sorted(k for k, v in post["tags"].items() if v in lost)
+        ctx.check(not lost, "%s:repository-revisions-lost" % what,
+                  "%s: revisions of the location's own repository outside the tip's ancestry are absent afterwards: %r%s"
+                  % (label, lost[:5], (" (still named by tags %r)" % tagged) if tagged else ""), det)
     for r, (parents, t1, t3) in pre["testaments"].items():
         if r not in post["testaments"]:
             continue
@@ -301,12 +338,12 @@ def judge_preserved(ctx, pre, post, what, label, tree_expected=True, tags_supers
 
 # ------------------------------------------------------------------ workload construction
 
-def add_pending(rng, wt, other_branch, names, log):
+def add_pending(rng, wt, other_branch, names, log, p_merge=0.45):
     """Uncommitted edits and optionally a pending merge; returns a class label."""
     from breezy import errors
 
     label = []
-    if other_branch is not None and rng.random() < 0.45:
+    if other_branch is not None and rng.random() < p_merge:
         try:
             with wt.lock_write():
                 wt.merge_from_branch(other_branch)
@@ -328,6 +365,90 @@ def add_pending(rng, wt, other_branch, names, log):
 
 def tags_supported(branch):
     return branch._format.supports_tags()
+
+
+def add_dead_heads(rng, cd, other_branch, names, log):
+    """Leave revisions in the location's own repository that are not in the ancestry of its tip, the way users do: commit +
+    tag + uncommit, a merge that is reverted, a fetch of somebody else's tagged revision.  Returns a class label."""
+    from breezy import errors, uncommit
+    from breezy.commit import PointlessCommit
+
+    b = cd.open_branch()
+    has_tree = cd.has_workingtree()
+    kinds = ["fetch"]
+    if has_tree:
+        kinds += ["uncommit", "uncommit", "merge-revert"]
+    kind = rng.choice(kinds)
+    tag = tags_supported(b) and rng.random() < 0.7
+    if kind == "uncommit":
+        wt = cd.open_workingtree()
+        gen.random_delta(rng, wt, names, rng.randint(1, 3), None, log)
+        local = b.get_bound_location() is not None and rng.random() < 0.85
+        try:
+            rid = wt.commit("candidate", rev_id=b"c52-cand-1", timestamp=1600000500, timezone=0, committer="S <s@example.com>",
+                            **({"local": True} if local else {}))
+        except PointlessCommit:
+            return "none"
+        if tag:
+            b.tags.set_tag("candidate", rid)
+        wt = cd.open_workingtree()
+        uncommit.uncommit(wt.branch, tree=wt, local=local, keep_tags=True)
+        if rng.random() < 0.4:
+            wt = cd.open_workingtree()
+            wt.revert()
+        log.append({"dead-head": "uncommit", "tagged": tag, "local": local})
+        return "uncommit" + ("+tag" if tag else "")
+    if other_branch is None:
+        return "none"
+    other_tip = other_branch.last_revision()
+    if kind == "merge-revert":
+        wt = cd.open_workingtree()
+        try:
+            with wt.lock_write():
+                wt.merge_from_branch(other_branch)
+        except errors.BzrError as e:
+            log.append({"merge-refused": type(e).__name__})
+        wt = cd.open_workingtree()
+        wt.revert()
+        gen.resolve_all(wt)
+    else:
+        b.repository.fetch(other_branch.repository, other_tip)
+    if not b.repository.has_revision(other_tip):
+        return "none"
+    if tag:
+        b.tags.set_tag("seen", other_tip)
+    log.append({"dead-head": kind, "tagged": tag})
+    return kind + ("+tag" if tag else "")
+
+
+# steps that actually move something from a given layout (the uniform draw is kept beside them, for the refusals)
+PRODUCTIVE = {
+    "tree": ["to_branch", "to_checkout", "to_lightweight_checkout", "to_lightweight_checkout", "to_use_shared"],
+    "branch": ["to_tree", "to_checkout", "to_lightweight_checkout", "to_lightweight_checkout", "to_use_shared"],
+    "checkout": ["to_tree", "to_branch", "to_lightweight_checkout", "to_lightweight_checkout", "to_use_shared"],
+    "bound-branch": ["to_tree", "to_branch", "to_checkout", "to_lightweight_checkout", "to_use_shared"],
+    "lightweight": ["to_tree", "to_tree", "to_checkout", "to_checkout", "to_branch"],
+    "reference-only": ["to_tree", "to_checkout", "to_branch", "to_lightweight_checkout"],
+    "repo-tree": ["to_standalone", "to_standalone", "to_branch", "to_checkout", "to_lightweight_checkout"],
+    "repo-branch": ["to_standalone", "to_standalone", "to_tree", "to_checkout", "to_lightweight_checkout"],
+    "repo-checkout": ["to_standalone", "to_tree", "to_branch", "to_lightweight_checkout"],
+    "repo-bound-branch": ["to_standalone", "to_tree", "to_checkout", "to_lightweight_checkout"],
+}
+
+
+def pick_step(rng, cur, pre):
+    """Mostly a step that changes the layout; those that have to carry revisions nothing else reaches more often still."""
+    r = rng.random()
+    if r < 0.3 or cur not in PRODUCTIVE:
+        return rng.choice(R_STEPS)
+    if r < 0.65:
+        if pre["tree"] is not None and len(pre["tree"]["parents"]) > 1 and not pre["own_repo"]:
+            # the kept tree names revisions the branch does not: a new repository has to receive them
+            return rng.choice(["to_tree", "to_checkout"] if cur == "lightweight" else ["to_standalone", "to_standalone", "to_checkout"])
+        if pre["own_repo"] and pre["own_revs"] - pre["heads_ancestry"]:
+            # the repository that is about to be destroyed holds more than the branch's history
+            return rng.choice(["to_lightweight_checkout", "to_lightweight_checkout", "to_lightweight_checkout", "to_use_shared"])
+    return rng.choice(PRODUCTIVE[cur])
 
 
 def build(ctx, rng, fmt, nrevs):
@@ -542,6 +663,7 @@ def make_layout(rng, area, main_path, layout, shared_trees):
 def case_reconfigure(ctx):
     from breezy import errors, reconfigure
     from breezy.branch import Branch
+    from breezy.commit import PointlessCommit
     from breezy.controldir import ControlDir, format_registry
     from breezy.workingtree import WorkingTree
 
@@ -562,9 +684,18 @@ def case_reconfigure(ctx):
         shutil.copytree(hist.trees[main], main_path, symlinks=True)
         other_branch = None
         others = [b for b in bnames if b != main]
+        op = os.path.join(area, "other")
         if others:
-            op = os.path.join(area, "other")
             shutil.copytree(hist.trees[rng.choice(others)], op, symlinks=True)
+            other_branch = Branch.open(op)
+        else:
+            # a single-branch history: somebody branches off main and commits, so that there is something to merge
+            owt = Branch.open(main_path).controldir.sprout(op).open_workingtree()
+            gen.random_delta(rng, owt, names, rng.randint(1, 3), None, log)
+            try:
+                owt.commit("other work", rev_id=b"c52-other-1", timestamp=1600000900, timezone=3600, committer="O <o@example.com>")
+            except PointlessCommit:
+                pass
             other_branch = Branch.open(op)
         sh = os.path.join(area, "shared")
         os.mkdir(sh)
@@ -575,7 +706,7 @@ def case_reconfigure(ctx):
         # sometimes the subject gets ahead of (or tagged differently from) the branch it came from
         sync = "synced"
         cd = ControlDir.open(subj)
-        if layout != "lightweight" and rng.random() < 0.35:
+        if layout != "lightweight" and rng.random() < 0.25:
             if cd.has_workingtree():
                 wt = cd.open_workingtree()
                 gen.random_delta(rng, wt, names, rng.randint(1, 3), None, log)
@@ -583,6 +714,11 @@ def case_reconfigure(ctx):
                 wt.commit("subject commit", rev_id=b"c52-subj-1", timestamp=1600000000, timezone=0,
                           committer="S <s@example.com>", **kw)
                 sync = "ahead-local" if kw else ("ahead" if layout != "checkout" else "synced")
+        dead = "none"
+        if layout in ("tree", "branch", "checkout") and rng.random() < 0.75:
+            dead = add_dead_heads(rng, cd, other_branch, names, log)
+            cd = ControlDir.open(subj)
+        ctx.hist("R:dead-heads:" + dead)
         b = cd.open_branch()
         if tags_supported(b) and rng.random() < 0.5:
             b.tags.set_tag(rng.choice(TAGS), b.last_revision())
@@ -597,7 +733,8 @@ def case_reconfigure(ctx):
                         sync += "+tag-conflict"
         pend = "none"
         if cd.has_workingtree():
-            pend = add_pending(rng, cd.open_workingtree(), other_branch, names, log)
+            pend = add_pending(rng, cd.open_workingtree(), other_branch, names, log,
+                               p_merge=0.8 if layout in ("lightweight", "repo-tree") else 0.45)
     except Exception as e:  # workload construction (generator-made trees can be odd): never judged
         ctx.discard("setup:%s" % type(e).__name__)
         return
@@ -608,20 +745,21 @@ def case_reconfigure(ctx):
         if sum(ctx.acc["fail_counts"].values()) != nfail0:
             return  # an oracle already failed on this location: later steps would only re-report its consequences
         cur = layout_of(subj)
-        step = rng.choice(R_STEPS)
-        force = rng.random() < 0.25
-        loc = None
-        if step in ("to_checkout", "to_lightweight_checkout"):
-            loc = rng.choice([main_path, main_path, None])
-        label = "%s[%s,%s,%s] %s%s%s" % (cur, fmt, pend, sync, step, "(main)" if loc else "", " force" if force else "")
-        ctx.info["steps"].append(label)
         try:
             pre = snap_location(subj)
-            pre_main = snap_location(main_path)
+            pre_main = snap_location(main_path, want=set(pre["testaments"]))
         except Exception as e:
             if si == 0:
                 ctx.discard("pre-snapshot:%s" % type(e).__name__)
             raise
+        step = pick_step(rng, cur, pre)
+        force = rng.random() < 0.25
+        loc = None
+        if step in ("to_checkout", "to_lightweight_checkout"):
+            loc = rng.choice([main_path, main_path, None])
+        label = "%s[%s,%s,%s,%s] %s%s%s" % (cur, fmt, pend, sync, "dead:" + dead, step, "(main)" if loc else "", " force" if force else "")
+        ctx.info["steps"].append(label)
+        want = set(pre["testaments"])
         before_bytes = tree_fingerprint(area)
         cd = ControlDir.open(subj)
         ctx.count("reconfigure_steps")
@@ -666,7 +804,7 @@ def case_reconfigure(ctx):
                 ctx.fail("reconfigure:refused-but-changed:%s" % outcome.split(":")[1], "%s: %r" % (label, diff[:6]), {"step": label})
                 ctx.note(("R", fmt, cur, step, outcome + ":changed", pend, sync, force), nontrivial=True)
                 return  # one mechanism, one key: the half-applied location is not judged further
-            post = snap_location(subj)
+            post = snap_location(subj, want=want)
             judge_preserved(ctx, pre, post, "reconfigure-refused", label + " [" + outcome + "]")
             ctx.check(post["layout"] == pre["layout"], "reconfigure:refused-but-layout-changed", "%s: %s -> %s" % (label, pre["layout"], post["layout"]))
             if outcome == "refused:UncommittedChanges":
@@ -675,12 +813,12 @@ def case_reconfigure(ctx):
             continue
         if outcome.startswith("bind-refused"):
             # earlier sub-steps of apply() may already have happened; history must still be intact
-            post = snap_location(subj)
+            post = snap_location(subj, want=want)
             judge_preserved(ctx, pre, post, "reconfigure-bind-refused", label + " [" + outcome + "]",
                             tree_expected="crash" not in outcome, tags_superset=True)
             ctx.note(("R", fmt, cur, step, outcome, pend, sync, force), nontrivial=False)
             continue
-        post = snap_location(subj)
+        post = snap_location(subj, want=want)
         new = post["layout"]
         ctx.hist("R:transition:%s->%s" % (cur, new))
         ctx.distinct("layout_pairs", (cur, new))
@@ -701,6 +839,14 @@ def case_reconfigure(ctx):
             return  # the tree now sits on a branch it is not in step with, by request: nothing further to preserve
         else:
             judge_preserved(ctx, pre, post, "reconfigure", label + " => " + new, tree_expected=not tree_destroyed, tags_superset=to_ref)
+            if pre["own_repo"] and not post["own_repo"]:
+                carried = pre["own_revs"] - pre["heads_ancestry"]
+                if to_ref:
+                    carried -= set(pre_main["testaments"])
+                if carried:
+                    # revisions no branch tip or tree reaches, which the repository taking over did not (need not) have
+                    ctx.count("dead_heads_carried_to_other_repository")
+                    ctx.hist("R:dead-heads-carried:" + step)
         if tree_destroyed and not (force and had_changes):
             # unversioned files are not the tree's to delete
             lost = [k for k, v in pre["tree"]["disk"].items() if k not in pre["tree"]["snap"] and v[0] == "file"
